@@ -11,6 +11,10 @@ pub fn exec(func: &str, a: &mut Args) -> String {
             let h1: Vec<_> = hull2_idx(&pts).into_iter().map(|i| pts[i]).collect();
             let h2: Vec<_> = hull2_idx(&h1).into_iter().map(|i| h1[i]).collect();
             format!("{} {} {} {}", h1.len(), h1.iter().map(d2::fp).collect::<Vec<_>>().join(" "), h2.len(), h2.iter().map(d2::fp).collect::<Vec<_>>().join(" ")) }
+        "convex_polygon" => { let n = a.u(); let pts: Vec<_> = (0..n).map(|_| d2::p(a)).collect();
+            match crate::p2::shape::ConvexPolygon::from_convex_hull(&pts) { None => "none".into(),
+                Some(p) => format!("{} {} {} {}", p.points().len(), p.points().iter().map(d2::fp).collect::<Vec<_>>().join(" "),
+                    p.normals().len(), p.normals().iter().map(|n| d2::fv(&n.into_inner())).collect::<Vec<_>>().join(" ")) } }
         "hull3" => { let n = a.u(); let pts: Vec<_> = (0..n).map(|_| d3::p(a)).collect();
             match try_convex_hull(&pts) {
                 Err(e) => format!("err {:?}", e).replace(' ', "_").replacen("err_", "err ", 1),
@@ -28,6 +32,11 @@ fn cloud2(r: &mut Rng, kind: u64, n: usize) -> Vec<d2::Point<f64>> {
         3 => d2::Point::new(r.lattice(64, 3), r.lattice(64, 3)),
         4 => d2::Point::new(r.logu(1e-3, 1e3) * if r.bool() { -1.0 } else { 1.0 }, r.logu(1e-3, 1e3) * if r.bool() { -1.0 } else { 1.0 }), // several orders of magnitude
         5 => { let t = i as f64; d2::Point::new(t, if i % 2 == 0 { 0.0 } else { r.range(0, 1) as f64 }) }  // long collinear runs
+        7 => { // every point duplicated, large coordinates (rounding makes a duplicate "visible")
+            let base = (i / 2) as u64; let mut rr = Rng::new(base.wrapping_mul(7919) ^ n as u64);
+            d2::Point::new(rr.uniform(100.0, 9000.0), rr.uniform(100.0, 9000.0)) }
+        8 => { // shuffled small lattice: the first-listed maximal-x point may be mid-edge
+            d2::Point::new(r.range(-1, 1) as f64, r.range(-1, 1) as f64) }
         _ => { let c = r.range(-2, 2) as f64; d2::Point::new(c, c * 2.0 + 1.0) }              // all collinear (degenerate)
     }).collect()
 }
@@ -42,17 +51,36 @@ fn cloud3(r: &mut Rng, kind: u64, n: usize) -> Vec<d3::Point<f64>> {
         _ => d3::Point::new(r.logu(1e-2, 1e2), r.logu(1e-2, 1e2) * if r.bool() { -1.0 } else { 1.0 }, r.uniform(-1.0, 1.0)),
     }).collect()
 }
+/// structured degenerate families: pyramids / bipyramids / prisms over regular k-gons (many coplanar hull vertices)
+fn solid3(r: &mut Rng) -> Vec<d3::Point<f64>> {
+    let k = 3 + r.below(12) as usize;
+    let h = *r.pick(&[0.2, 0.44, 0.6, 1.0, 2.5]);
+    let rad = *r.pick(&[1.0, 2.0, 0.5]);
+    let ring = |y: f64| -> Vec<d3::Point<f64>> { (0..k).map(|i| { let a = 2.0 * std::f64::consts::PI * i as f64 / k as f64; d3::Point::new(rad * a.cos(), y, rad * a.sin()) }).collect() };
+    let mut pts = match r.below(3) {
+        0 => { let mut p = ring(0.0); p.push(d3::Point::new(0.0, h, 0.0)); p }
+        1 => { let mut p = ring(0.0); p.push(d3::Point::new(0.0, h, 0.0)); p.push(d3::Point::new(0.0, -h, 0.0)); p }
+        _ => { let mut p = ring(0.0); p.extend(ring(h)); p }
+    };
+    // a few interior points, random order
+    for _ in 0..r.below(4) { pts.push(d3::Point::new(r.uniform(-0.2, 0.2) * rad, h * 0.3, r.uniform(-0.2, 0.2) * rad)); }
+    for i in (1..pts.len()).rev() { let j = r.below(i as u64 + 1) as usize; pts.swap(i, j); }
+    if r.bool() { let lt = r.bool(); let iso = d3::gen_iso(r, lt, 5.0); for p in pts.iter_mut() { *p = iso * *p; } }
+    pts
+}
 
 pub fn gen(r: &mut Rng, thorough: bool) -> Vec<(String, String)> {
     let n = if thorough { 1500 } else { 300 };
     let mut v = Vec::new();
     for it in 0..n {
-        let kind = r.below(7);
+        let kind = r.below(10);
         let np = if r.below(10) == 0 { 3 + r.below(if thorough { 2000 } else { 400 }) as usize } else { 3 + r.below(40) as usize };
         let pts = cloud2(r, kind, np);
         let s = format!("{} {}", pts.len(), pts.iter().map(d2::hp).collect::<Vec<_>>().join(" "));
         v.push(("hull2".into(), s.clone()));
-        if it % 4 == 0 { v.push(("hull2_idem".into(), s)); }
+        if it % 4 == 0 { v.push(("hull2_idem".into(), s.clone())); }
+        if it % 2 == 0 { v.push(("convex_polygon".into(), s)); }
+        if it % 3 == 1 { let p3 = solid3(r); v.push(("hull3".into(), format!("{} {}", p3.len(), p3.iter().map(d3::hp).collect::<Vec<_>>().join(" ")))); }
         if it % 3 == 0 {
             let k3 = r.below(6);
             let np3 = if r.below(8) == 0 { 4 + r.below(if thorough { 1500 } else { 300 }) as usize } else { 4 + r.below(60) as usize };
